@@ -56,6 +56,8 @@ var vC03Faults = []vFault{
 	{"annotated-query", "GET /aq\n  Query // note\n  {\"a\": 1}\n  200 any\n", "Query", jerr.AnnotationIsForbiddenForTheDirective, "", 3},
 	{"jsight-repeated", "JSIGHT 0.3\n", "JSIGHT 0.3", "JSIGHT", "", 0},
 	{"response-type-and-notation", "GET /tn\n  200 @cat jsight\n", "200 @cat jsight", "cannot be declared simultaneously", "", 3},
+	{"request-headers-without-body", "GET /rh\n  Request\n    Headers\n    {\"h\": \"v\"}\n  200 any\n", "Request", jerr.UndefinedRequestBodyForResource, "", 3},
+	{"response-headers-without-body", "GET /hb\n  200\n    Headers\n    {\"h\": \"v\"}\n", "200", "undefined response body", "", 3},
 	{"method-without-protocol", "URL /np\n  Method bar\n    Params\n    {}\n", "Method bar", "Protocol", "", 3},
 }
 
@@ -101,6 +103,9 @@ func HFault() {
 	c, je := vBuildProject(root, files)
 	_ = c
 	vAssert(je != nil, "c03-fault-accepted-"+f.name)
+	if vParam("debug", 0) == 1 && !strings.Contains(je.Msg, f.msg) {
+		vObserve("msg", f.name, place, je.Msg, int(je.Line))
+	}
 	vAssert(strings.Contains(je.Msg, f.msg), "c03-wrong-message-class-"+f.name)
 	// location: the last occurrence of the marker inside the injected text
 	seg := holderText[textAt:]
